@@ -586,6 +586,81 @@ def manip_cases(tier):
     yield dict(name="multi_matmul x3", op="multi_matmul", operands=[vals((2, 3), 1), vals((3, 2), 5), vals((2, 2), 9)], mg=lambda *a: mg.multi_matmul(a), shadow=lambda *a: a[0] @ a[1] @ a[2], np=None)
 
 
+SWEEP1 = [1e-6, 1e-3, 0.05, 0.3, 0.9, 1.1, 3.0, 12.0, 50.0, 300.0, 720.0]
+SWEEP2 = [-700.0, -30.0, -2.5, -0.4, -1e-3, 1e-3, 0.4, 2.5, 30.0, 700.0]
+
+
+def _cs_elementwise(shadow, arrays, which):
+    """derivative of an elementwise function with respect to operand `which`, by complex step (diagonal Jacobian)"""
+    pert = [np.array(a, dtype=np.complex128) if j == which else a for j, a in enumerate(arrays)]
+    pert[which] = pert[which] + 1e-20j
+    with np.errstate(all="ignore"):
+        return np.imag(np.asarray(shadow(*pert))) / 1e-20
+
+
+def value_sweep_cases(tier):
+    """every elementwise unary function of the catalogue over a grid of magnitudes of both signs, and the binary ufuncs over a grid
+    of operand pairs; a grid point is kept iff the functional model and its derivative(s) are finite there (the function is
+    defined and differentiable); one case per function with all kept points"""
+    import warnings
+
+    done = set()
+    grid1 = np.array([s * v for v in SWEEP1 for s in (1.0, -1.0)])
+    for c in itertools.chain(unary_ufunc_cases(tier), manip_cases(tier)):
+        if c["op"] in done or len(c["operands"]) != 1 or c.get("mask") is not None or c.get("dtype") or c.get("conv"):
+            continue
+        with warnings.catch_warnings(), np.errstate(all="ignore"):
+            warnings.simplefilter("ignore")
+            try:
+                f = np.asarray(c["shadow"](grid1))
+            except Exception:
+                continue
+            if f.shape != grid1.shape:
+                continue  # not elementwise
+            d = _cs_elementwise(c["shadow"], [grid1], 0)
+        done.add(c["op"])
+        keep = np.isfinite(np.real(f)) & (np.imag(f) == 0 if np.iscomplexobj(f) else True) & np.isfinite(d) & (np.abs(f) < 1e300) & (np.abs(d) < 1e300)
+        if c["op"] in ("absolute", "abs"):
+            keep &= grid1 != 0
+        if not keep.any():
+            continue
+        yield dict(name="%s over the value grid (%d points)" % (c["op"], int(keep.sum())), op=c["op"], operands=[grid1[keep].copy()], mg=c["mg"], shadow=c["shadow"], np=c.get("np"), sweep=True)
+    import mygrad.tensor_base as tb
+
+    A = np.repeat(SWEEP2, len(SWEEP2)).astype(float)
+    B = np.tile(SWEEP2, len(SWEEP2)).astype(float)
+    for uf in sorted(tb._REGISTERED_UFUNC, key=lambda u: u.__name__):
+        if uf.nin != 2 or uf.__name__ == "matmul":
+            continue
+        name = uf.__name__
+        mgf = tb._REGISTERED_UFUNC[uf]
+        sh = {"logaddexp": _st_lae, "logaddexp2": _st_lae2}.get(name, BINARY_SHADOW.get(name, uf))
+        with warnings.catch_warnings(), np.errstate(all="ignore"):
+            warnings.simplefilter("ignore")
+            f = np.asarray(sh(A, B))
+            da, db = _cs_elementwise(sh, [A, B], 0), _cs_elementwise(sh, [A, B], 1)
+            fr = np.asarray(uf(A, B))
+        keep = np.isfinite(np.real(f)) & np.isfinite(da) & np.isfinite(db) & (np.abs(f) < 1e300) & (np.abs(da) < 1e300) & (np.abs(db) < 1e300) & np.isfinite(fr)
+        if name in ("maximum", "minimum"):
+            keep &= A != B
+        if name == "power":
+            keep &= A > 0  # d/dy x**y is real only for x > 0
+        if not keep.any():
+            continue
+        yield dict(name="%s over the pair grid (%d points)" % (name, int(keep.sum())), op=name, operands=[A[keep].copy(), B[keep].copy()],
+                   mg=(lambda mgf: lambda x, y: mgf(x, y))(mgf), shadow=sh, np=uf, sweep=True)
+
+
+def _st_lae(a, b):
+    m = np.where(np.real(a) > np.real(b), a, b)
+    d = np.where(np.real(a) > np.real(b), b - a, a - b)
+    return m + np.log1p(np.exp(d))
+
+
+def _st_lae2(a, b):
+    return _st_lae(a * np.log(2.0), b * np.log(2.0)) / np.log(2.0)
+
+
 def all_cases(tier):
     return itertools.chain(unary_ufunc_cases(tier), binary_ufunc_cases(tier), sequential_cases(tier), linalg_cases(tier), index_cases(tier), manip_cases(tier),
-                           special_value_cases(tier))
+                           special_value_cases(tier), value_sweep_cases(tier))
